@@ -140,12 +140,21 @@ func wholeSemantics(c *Check, r *Repo, rule string, opts modelOpts) {
 	}
 	ti := loadTemplate(r)
 	cases := wholeSemanticCases()
-	if c.Tier == "thorough" && opts == (modelOpts{Ast: true}) {
-		cases = append(cases, randomSemCases(c.Seed+31, 200)...)
+	if c.Tier == "thorough" && opts.Ast {
+		// default options under C01; -inline and -switch under C02 (other grammars: the seed is shifted)
+		shift := int64(31)
+		if opts.Inline {
+			shift += 1000
+		}
+		if opts.Switch {
+			shift += 2000
+		}
+		cases = append(cases, randomSemCases(c.Seed+shift, 200)...)
 	}
 	type res struct {
 		bad, und []string
 		n        int
+		skipped  int
 	}
 	out := make([]res, len(cases))
 	parallelChunks(len(cases), func(lo, hi int) {
@@ -202,6 +211,11 @@ func wholeSemantics(c *Check, r *Repo, rule string, opts modelOpts) {
 						continue
 					}
 					if len(tv.Und) > 0 || tv.EmitErr != "" {
+						if d := tv.detail(); strings.HasPrefix(cs.name, "random #") && (strings.Contains(d, "state explosion") || strings.Contains(d, "step limit") || strings.Contains(d, "fuel")) {
+							// a random grammar whose paths are too many to enumerate within the bounds: not examined
+							out[i].skipped++
+							continue
+						}
 						out[i].und = append(out[i].und, fmt.Sprintf("%s, rule %s: %s", cs.name, rl.n, clip(tv.detail(), 300)))
 						continue
 					}
@@ -237,11 +251,15 @@ func wholeSemantics(c *Check, r *Repo, rule string, opts modelOpts) {
 		}
 	})
 	var bad, und []string
-	n := 0
+	n, skipped := 0, 0
 	for _, o := range out {
 		bad = append(bad, o.bad...)
 		und = append(und, o.und...)
 		n += o.n
+		skipped += o.skipped
+	}
+	if skipped*20 > n {
+		und = append(und, fmt.Sprintf("%d of %d rule functions of random grammars have too many paths to enumerate", skipped, n))
 	}
 	sort.Strings(bad)
 	construct := "Compile as a whole/the rule functions it prints have the PEG outcomes of the grammar as written [" + optsName(opts) + "]"
@@ -251,7 +269,7 @@ func wholeSemantics(c *Check, r *Repo, rule string, opts modelOpts) {
 	case len(und) > 0:
 		c.Und(rule, construct, "", clip(strings.Join(uniq(und), " || "), 1200))
 	default:
-		c.OK(rule, construct, "", fmt.Sprintf("%d rule functions of %d grammars (keywords, nested choices and sequences, classes, rule calls, lookaheads, captures and actions, predicates, recursion) built through the builder API and taken through all of Compile: outcome sets (verdict, position, tokens, events) equal the oracle's for the grammar as written", n, len(cases)))
+		c.OK(rule, construct, "", fmt.Sprintf("%d rule functions of %d grammars (keywords, nested choices and sequences, classes, rule calls, lookaheads, captures and actions, predicates, recursion) built through the builder API and taken through all of Compile: outcome sets (verdict, position, tokens, events) equal the oracle's for the grammar as written (%d rule functions of random grammars not examined: too many paths)", n-skipped, len(cases), skipped))
 	}
 	c.Floor(rule, n, 13)
 }
